@@ -1560,7 +1560,7 @@ gd_entry_t *_GD_CheckParent(DIRFILE *restrict D,
 
   dtrace("%p, %p, \"%s\", %p, %i", D, p, *name, len, me);
 
-  for (cptr = *name + 1; *cptr != '\0'; ++cptr)
+  for (cptr = *name + (**name ? 1 : 0); *cptr != '\0'; ++cptr)
     if (*cptr == '/') {
       *cptr = '\0';
       if (me == -1) {
